@@ -7,7 +7,6 @@ use crate::models::{codec_ref, formulas, keccak_ref, poseidon_ref};
 use proptest::prelude::*;
 use rln::ffi::Buffer;
 use serde::{Deserialize, Serialize};
-use std::io::Cursor;
 
 pub struct C09;
 
@@ -35,6 +34,21 @@ fn ffi_call(f: extern "C" fn(*const Buffer, *mut Buffer) -> bool, input: &[u8]) 
     Some(unsafe { std::slice::from_raw_parts(out.ptr, out.len) }.to_vec())
 }
 
+/// the same C call with ONE Buffer struct serving as input and as output (a C caller overwriting its
+/// argument in place)
+fn ffi_call_in_place(f: extern "C" fn(*const Buffer, *mut Buffer) -> bool, input: &[u8]) -> Option<Vec<u8>> {
+    let mut b = Buffer::from(input);
+    let p = &mut b as *mut Buffer;
+    let ok = f(p as *const Buffer, p);
+    if !ok {
+        return None;
+    }
+    if b.ptr.is_null() || b.len == 0 {
+        return Some(vec![]);
+    }
+    Some(unsafe { std::slice::from_raw_parts(b.ptr, b.len) }.to_vec())
+}
+
 pub fn check_poseidon(v: &[Fx], o: &mut Outcome) {
     let ins: Vec<_> = v.iter().map(|f| f.0).collect();
     let bigs: Vec<_> = v.iter().map(|f| f.big()).collect();
@@ -57,8 +71,10 @@ pub fn check_poseidon(v: &[Fx], o: &mut Outcome) {
     }
     // byte-level entry point
     let enc = codec_ref::enc_vec_fr(&bigs);
-    let mut out = Vec::new();
-    match guarded(|| rln::public::poseidon_hash(Cursor::new(&enc), &mut out)) {
+    let mut sink = gens::Sink::new();
+    let r = guarded(|| rln::public::poseidon_hash(gens::rd(&enc), &mut sink));
+    let out = sink.data;
+    match r {
         Ok(Ok(())) => {
             if out != expect_bytes {
                 vfail!(o, "public::poseidon_hash bytes differ from reference for {v:?}: {out:?}");
@@ -78,6 +94,10 @@ pub fn check_poseidon(v: &[Fx], o: &mut Outcome) {
             }
         }
         other => vfail!(o, "ffi::poseidon_hash failed for {v:?}: {other:?}"),
+    }
+    match guarded(|| ffi_call_in_place(rln::ffi::poseidon_hash, &enc)) {
+        Ok(Some(b)) if b == expect_bytes => {}
+        other => vfail!(o, "ffi::poseidon_hash called with one Buffer as input and output differs from the reference for {v:?}: {other:?}"),
     }
     o.evals = 4;
 }
@@ -99,8 +119,10 @@ pub fn check_keccak(data: &[u8], o: &mut Outcome) {
             }
         }
     }
-    let mut out = Vec::new();
-    match guarded(|| rln::public::hash(Cursor::new(data), &mut out)) {
+    let mut sink = gens::Sink::new();
+    let r = guarded(|| rln::public::hash(gens::rd(data), &mut sink));
+    let out = sink.data;
+    match r {
         Ok(Ok(())) => {
             if out != expect_bytes {
                 vfail!(o, "public::hash bytes differ from reference for input of len {}", data.len());
@@ -120,6 +142,10 @@ pub fn check_keccak(data: &[u8], o: &mut Outcome) {
         }
         other => vfail!(o, "ffi::hash failed: {other:?}"),
     }
+    match guarded(|| ffi_call_in_place(rln::ffi::hash, data)) {
+        Ok(Some(b)) if b == expect_bytes => {}
+        other => vfail!(o, "ffi::hash called with one Buffer as input and output differs from the reference for input of len {}: {:?}", data.len(), other.map(|b| b.map(|b| b.len()))),
+    }
     o.evals = 4;
 }
 
@@ -130,7 +156,7 @@ impl Property for C09 {
     }
     fn rule(&self) -> String {
         "cases: vectors in Fr^n (n=1..8, boundary-weighted, incl. all-equal) and byte strings (block-edge lengths 135/136/137/271.., long patterns); \
-         each compared on three entry points (typed, byte-level, FFI) against the BigUint reference Poseidon / own Keccak sponge; KeccakSeq / PoseidonSeq: related inputs (equal length, one byte / one element changed, mostly near the end so that a long prefix is shared) hashed back to back on one thread in the order s, s', s, s' — each result against the reference (purity across calls). \
+         each compared on three entry points (typed, byte-level with readers handing out 1 / 7 / 33 bytes per call or everything at once and writers accepting as little, FFI with separate and with one shared Buffer struct) against the BigUint reference Poseidon / own Keccak sponge; KeccakSeq / PoseidonSeq: related inputs (equal length, one byte / one element changed, mostly near the end so that a long prefix is shared) hashed back to back on one thread in the order s, s', s, s' — each result against the reference (purity across calls). \
          non-trivial = Poseidon with n>=4 or a boundary element, or a byte string whose length is within 1 of a multiple of 136 (>=135) or > 136; distinct by case content".into()
     }
     fn assumptions(&self) -> Vec<String> {
@@ -164,6 +190,9 @@ impl Property for C09 {
     }
     fn check(&self, _ctx: &Ctx, case: &Case) -> Outcome {
         let mut o = Outcome::new();
+        // reader / writer behaviour of the byte-level entry points: contiguous, 1, 7 or 33 bytes per call
+        gens::set_io_style((case_hash(case) % 4) as u8);
+        o.label(format!("io-style/{}", gens::io_style()));
         match case {
             Case::Poseidon(v) => {
                 o.label(format!("poseidon/n={}", v.len()));
